@@ -12,7 +12,9 @@ RULE = ('scenario = sequence of <= N assignments to an allow_refs parameter, eac
         'with 2 gated items, bind-ed async function (re-evaluated by a dependency update), plain value} x for each assignment '
         'whether the loop may run tasks before the next one (started vs merely scheduled) x EVERY permutation of the completion '
         'order of all gates x every position at which one more plain assignment is interleaved between completions; and the same '
-        'for root.rx.pipe(async_fn) with root updates while earlier evaluations are pending. Oracle: after all gates are '
+        'for root.rx.pipe(async_fn) with root updates while earlier evaluations are pending; root.rx.pipe(async_fn, arg_rx) read '
+        'lazily or watched, with root/argument updates and reads in every pattern and oldest-/newest-first completion; scenarios '
+        'with <= 3 assignments are repeated with a watcher fault injected while the result of one coroutine is applied. Oracle: after all gates are '
         'resolved and the loop is idle the parameter/expression holds the result of the most recent assignment; every value the '
         'watcher saw is tagged with the assignment that was the newest at that moment. Enumeration is complete for the bounds '
         'of the tier (quick: N<=3 all kinds + N=4 coroutine/plain; thorough: N<=4 all kinds (at most 5 gates) + N=5 coroutine/plain). '
@@ -29,7 +31,8 @@ ASSUMPTIONS = [
     'not violated',
     'asynchronous generators are driven to exhaustion (all their gates are eventually released)',
 ]
-REQUIRED = {'scenarios': 1500, 'deliveries': 1500, 'scenarios_two_pending': 500, 'scenarios_plain_while_pending': 300, 'rx_scenarios': 200}
+REQUIRED = {'scenarios': 1500, 'deliveries': 1500, 'scenarios_two_pending': 500, 'scenarios_plain_while_pending': 300, 'rx_scenarios': 200, 'rxlazy_scenarios': 200,
+            'faults_fired': 300}
 DEVMODE = False
 
 _st = {}
@@ -97,11 +100,24 @@ def enumerate_scenarios(P):
                     continue
                 for inter in [None] + list(range(len(order) + 1)):
                     out.append(dict(target='param', ops=ops, run_between=rb, order=order, interleave=inter))
+                # a fault while one result is being applied: the watcher raises for the result of one coroutine / bound
+                # function (generators are left alone: an exception ends the generator's task by design)
+                if len(ops) <= 3:
+                    for pg in [g for g in gates if ops[g[0]] != 'gen']:
+                        for inter in [None, len(order)] + ([order.index(pg) + 1] if order.index(pg) + 1 < len(order) else []):
+                            out.append(dict(target='param', ops=ops, run_between=rb, order=order, interleave=inter, poison=pg))
     # reactive pipeline: root updates while earlier evaluations are pending
     for n in range(1, tier_n + 3):
         for rb in itertools.product([False, True], repeat=n - 1):
             for order in itertools.permutations(range(n)):
                 out.append(dict(target='rx', n=n, run_between=rb, order=order))
+    # lazily evaluated pipeline (no watcher forces re-evaluation) with a root and a non-root input
+    for n in range(1, tier_n + 1):
+        for ins in itertools.product(['root', 'arg'], repeat=n):
+            for reads in itertools.product([False, True], repeat=n):
+                for order in ('fifo', 'lifo'):
+                    for watched in (False, True):
+                        out.append(dict(target='rxlazy', n=n, inputs=ins, reads=reads, order=order, watched=watched))
     return out
 
 
@@ -120,8 +136,11 @@ def run_case(idx, rng, P, rep):
     sc = _st['scenarios'][idx]
     loop = _st['loop']
     asyncio.set_event_loop(loop)
+    loop.set_exception_handler(lambda lp, ctx: None)      # injected watcher faults end up as task exceptions
     if sc['target'] == 'param':
         res = loop.run_until_complete(run_param(sc, rep))
+    elif sc['target'] == 'rxlazy':
+        res = loop.run_until_complete(run_rxlazy(sc, rep))
     else:
         res = loop.run_until_complete(run_rx(sc, rep))
     # cancel whatever is left so that scenarios do not leak into each other
@@ -146,7 +165,15 @@ async def run_param(sc, rep):
     gates = {g: loop.create_future() for g in gates_of(ops)}
     seen = []        # (value, newest assignment index at that moment)
     newest = [-1]
-    t.param.watch(lambda e: seen.append((e.new, newest[0])), 'x')
+    poison = sc.get('poison')
+    fired = [0]
+
+    def on_x(e):
+        seen.append((e.new, newest[0]))
+        if poison is not None and e.new == ('res',) + poison:
+            fired[0] += 1
+            raise Boom(f'watcher fault while the result of gate {poison} is applied')
+    t.param.watch(on_x, 'x')
     desc = {k: (list(v) if isinstance(v, tuple) else v) for k, v in sc.items()}
 
     def viol(key, msg):
@@ -226,6 +253,9 @@ async def run_param(sc, rep):
         else:
             final_expected = ('res', last_op, 0)
     rep.count('deliveries', len(seen))
+    if poison is not None:
+        rep.count('fault_scenarios')
+        rep.count('faults_fired', fired[0])
     # ---- bounded progress: everything the library scheduled must be finished by now
     left = [tk for tk in asyncio.all_tasks() if tk is not asyncio.current_task() and not tk.done()]
     if left:
@@ -244,6 +274,66 @@ async def run_param(sc, rep):
             viol('stale-result-applied-after-newer-assignment', f'the watcher saw {val!r} (assignment {tag}) when assignment {newest_at} had already been made')
             break
     return two_pending or plain_while_pending
+
+
+class Boom(Exception):
+    pass
+
+
+async def run_rxlazy(sc, rep):
+    param = _st['param']
+    loop = asyncio.get_running_loop()
+    pending = {}
+    started = []
+
+    async def work(v, a):
+        key = (v, a, len(started))
+        started.append(key)
+        pending[key] = loop.create_future()
+        return await pending[key]
+    root, arg = param.rx(0), param.rx('a0')
+    expr = root.rx.pipe(work, arg)
+    seen = []
+    if sc['watched']:
+        expr.rx.watch(seen.append)
+    cur = [0, 'a0']
+    desc = {k: (list(v) if isinstance(v, tuple) else v) for k, v in sc.items()}
+    outcome_value(expr)
+    await turns()
+    for i in range(sc['n']):
+        if sc['inputs'][i] == 'root':
+            cur[0] = i + 1
+            root.rx.value = cur[0]
+        else:
+            cur[1] = f'a{i + 1}'
+            arg.rx.value = cur[1]
+        if sc['reads'][i]:
+            outcome_value(expr)
+            await turns()
+    keys = list(pending)
+    if sc['order'] == 'lifo':
+        keys.reverse()
+    for k in keys:
+        if not pending[k].done():
+            pending[k].set_result(('res', k[0], k[1]))
+        await turns()
+    # bounded progress: read, let the loop run, complete whatever that started; a handful of rounds suffices
+    for _ in range(5):
+        outcome_value(expr)
+        await turns()
+        for k in list(pending):
+            if not pending[k].done():
+                pending[k].set_result(('res', k[0], k[1]))
+        await turns()
+    final = outcome_value(expr)
+    exp = ('res', cur[0], cur[1])
+    rep.count('rxlazy_scenarios')
+    rep.count('rx_evaluations_started', len(started))
+    if final != exp:
+        rep.violation('C10/rx/final-value/superseded-or-missing-result' + ('' if sc['watched'] else '/lazy'),
+                      f'after all evaluations completed the expression holds {final!r}, its inputs now give {exp!r} '
+                      f'(evaluations started for {started})', case=desc, trace=[repr(x) for x in seen])
+    return len(started) >= 2
 
 
 async def run_rx(sc, rep):
